@@ -1,5 +1,6 @@
 """C04 — check configuration and MANIFEST entry."""
-CFG = {'scale_variants': False,
+CFG = {'scale_exponents': [-60, -40, -30, -27, -10, -8],   # the membership oracle enumerates lattice points of the bounding box: no scaling up
+ 
  
     "count": {"quick": 10000, "thorough": 400000},
     "lean_files": ["GeoModel/BoolGlue.lean", "GeoModel/BoolSpec.lean", "GeoModel/Ops/C04.lean", "GeoModel/Winding.lean",
